@@ -135,6 +135,7 @@ static long reads_this_call = 0;
 static sigjmp_buf bail;
 static int bail_armed = 0;
 static uint8_t garbage_byte = 0x55;
+static int garbage_keep = 0;      /* 1: a failing read leaves the caller's buffer as it was */
 static long total_dev_writes = 0;
 static int tag_vol = -1;
 
@@ -150,7 +151,7 @@ static int io_hook(int is_write, uint32_t n, unsigned size, const uint8_t *wbuf,
         if (read_limit && reads_this_call > read_limit && bail_armed) siglongjmp(bail, 1);
         if (wlog && wlog_reads) fprintf(wlog, "R %u %u\n", n, size);
         if (fault_rd && (rd_since == fault_rd || (fault_sticky && rd_since > fault_rd))) {
-            if (rbuf) memset(rbuf, garbage_byte, size);
+            if (rbuf && !garbage_keep) memset(rbuf, garbage_byte, size);
             return -1;
         }
     } else {
@@ -369,7 +370,7 @@ int main(int argc, char **argv) {
         else if (!strcmp(c, "clock")) { pinned_clock = (time_t)atoll(a[1]); out("ok"); }
         else if (!strcmp(c, "heapfill")) { heapfill = atoi(a[1]); out("ok"); }
         else if (!strcmp(c, "stackfill")) { stackfill = atoi(a[1]); out("ok"); }
-        else if (!strcmp(c, "garbage")) { garbage_byte = (uint8_t)atoi(a[1]); out("ok"); }
+        else if (!strcmp(c, "garbage")) { if (!strcmp(a[1], "keep")) garbage_keep = 1; else { garbage_keep = 0; garbage_byte = (uint8_t)atoi(a[1]); } out("ok"); }
         else if (!strcmp(c, "readlimit")) { read_limit = atol(a[1]); out("ok"); }
         else if (!strcmp(c, "usedircache")) { BOOL b = atoi(a[1]); adfChgEnvProp(PR_USEDIRC, &b); out("ok"); }
         else if (!strcmp(c, "newdev")) {
@@ -579,6 +580,27 @@ int main(int argc, char **argv) {
                     for (unsigned k = 0; k < nl; k++) printf("%02x", eb[433 + k]);
                     s = ((uint32_t)eb[496] << 24) | (eb[497] << 16) | (eb[498] << 8) | eb[499];
                 }
+            }
+            putchar('\n');
+        }
+        else if (!strcmp(c, "filemap")) { /* filemap <dirpath> <name> : header and extension tables of a file, read raw block by block */
+            if (goto_dir(a[1])) { out("err nopath"); continue; }
+            struct bEntryBlock e;
+            ENTER(); SECTNUM s = adfGetEntryByName(vol, vol->curDirPtr, unhex(a[2]), &e); LEAVE();
+            if (s <= 0) { out("err"); continue; }
+            uint8_t hb[512], xb[512];
+            if (adfReadBlock(vol, (uint32_t)s, hb) != RC_OK) { out("err read"); continue; }
+            #define BE32(p_) (((uint32_t)(p_)[0] << 24) | ((p_)[1] << 16) | ((p_)[2] << 8) | (p_)[3])
+            printf("%d M hdr=%d size=%u highseq=%u first=%u H ", lineno, s, BE32(hb + 324), BE32(hb + 8), BE32(hb + 16));
+            /* all 72 slots in logical order (slot 71 first), zeros included */
+            for (int i = 0; i < 72; i++) printf("%s%u", i ? "," : "", BE32(hb + 24 + 4 * (71 - i)));
+            printf(" ; E ");
+            uint32_t x = BE32(hb + 504); int guard = 0, firstx = 1;
+            while (x && guard++ < 400) {
+                if (adfReadBlock(vol, x, xb) != RC_OK) { printf("%s%u=?", firstx ? "" : "|", x); break; }
+                printf("%s%u:%u:%u:%u=", firstx ? "" : "|", x, BE32(xb + 8), BE32(xb + 500), BE32(xb + 4)); firstx = 0;
+                for (int i = 0; i < 72; i++) printf("%s%u", i ? "," : "", BE32(xb + 24 + 4 * (71 - i)));
+                x = BE32(xb + 504);
             }
             putchar('\n');
         }
